@@ -70,6 +70,14 @@ func diffMapMap(dst, src map[string]any) (any, error) {
 			continue
 		}
 
+		if !overridable(v, v2) {
+			// No entry of a layer can turn v2 into v; replace the whole map.
+			repl := maps.Clone(dst)
+			repl["$replace"] = true
+
+			return repl, nil
+		}
+
 		v3, err := diff(v, v2)
 		if err != nil {
 			return nil, err
@@ -156,6 +164,25 @@ outer2:
 	}
 
 	return ret, nil
+}
+
+// overridable reports whether a layer value can turn base into target: bkl
+// rejects a scalar or list over a non-empty map and anything but a list over
+// a list.
+func overridable(target, base any) bool {
+	switch base2 := base.(type) {
+	case map[string]any:
+		if _, ok := target.(map[string]any); !ok {
+			return len(base2) == 0
+		}
+
+	case []any:
+		if _, ok := target.([]any); !ok {
+			return false
+		}
+	}
+
+	return true
 }
 
 // listPatchReproduces applies patch to src with bkl's own list merge and
